@@ -86,6 +86,87 @@ def too_many_timeouts(n=3):
 
 
 # ---------------------------------------------------------------------------
+# line coverage of the code under test (vacuity guard, reported in the evidence)
+# ---------------------------------------------------------------------------
+
+_LINES = set()          # (relative file, line) executed in this process since the last drain
+_MON = {'on': False}
+
+
+def enable_line_monitoring():
+    """Record which lines of the tree under test run (sys.monitoring; every location disables
+    itself after its first hit, so the cost is negligible)."""
+    if _MON['on'] or not hasattr(sys, 'monitoring'):
+        return
+    mon = sys.monitoring
+    root = os.path.join(os.path.realpath(REPO), 'phylib') + os.sep
+    try:
+        mon.use_tool_id(mon.COVERAGE_ID, 'pymc')
+    except ValueError:
+        return
+
+    def on_line(code, line):
+        fn = code.co_filename
+        if fn.startswith(root):
+            _LINES.add((fn[len(root) - 7:], line))       # 'phylib/...'
+        return mon.DISABLE
+    mon.register_callback(mon.COVERAGE_ID, mon.events.LINE, on_line)
+    mon.set_events(mon.COVERAGE_ID, mon.events.LINE)
+    _MON['on'] = True
+
+
+def drain_lines():
+    out = set(_LINES)
+    _LINES.clear()
+    return out
+
+
+def function_lines(relpath):
+    """{function qualname: set of executable line numbers} of a source file of the tree under test."""
+    path = os.path.join(os.path.realpath(REPO), relpath)
+    try:
+        code = compile(open(path).read(), path, 'exec')
+    except Exception:
+        return {}
+    out = {}
+
+    def walk(co, prefix):
+        for c in co.co_consts:
+            if hasattr(c, 'co_code'):
+                name = (prefix + '.' if prefix else '') + c.co_name
+                if c.co_name not in ('<listcomp>', '<genexpr>', '<dictcomp>', '<setcomp>', '<lambda>'):
+                    lines = set(l for _, _, l in c.co_lines() if l is not None and l != c.co_firstlineno)
+                    out.setdefault(name, set()).update(lines)
+                    walk(c, name)
+                else:
+                    walk(c, prefix)
+    walk(code, '')
+    return out
+
+
+def anchor_coverage(prop, executed):
+    """Per anchored file of a property: fraction of function lines executed, functions never entered."""
+    anchors = []
+    try:
+        for l in open(os.path.join(VERIF, 'properties.jsonl')):
+            p = json.loads(l)
+            if p['id'] == prop:
+                anchors = p['anchors']['files']
+    except Exception:
+        pass
+    res = {}
+    for rel in anchors:
+        fl = function_lines(rel)
+        hit = set(l for f, l in executed if f == rel)
+        tot = set().union(*fl.values()) if fl else set()
+        never = sorted(n for n, ls in fl.items() if ls and not (ls & hit))
+        res[rel] = {'function_lines': len(tot), 'executed': len(tot & hit),
+                    'fraction': round(len(tot & hit) / float(len(tot)), 3) if tot else 0.0,
+                    'functions_never_entered': never[:60]}
+    return res
+
+
+# ---------------------------------------------------------------------------
 # scratch directories
 # ---------------------------------------------------------------------------
 
@@ -183,6 +264,7 @@ class Acc(object):
         self.samples = []
         self.violations = {}     # signature -> {'count': n, 'record': smallest record}
         self.extra = collections.Counter()     # module-specific integer counters
+        self.lines = set()       # (file, line) of the tree under test that were executed
 
     # -- recording ---------------------------------------------------------
     def state(self, n=1):
@@ -217,6 +299,7 @@ class Acc(object):
         self.nontrivial += other.nontrivial
         self.classes.update(other.classes)
         self.extra.update(other.extra)
+        self.lines |= other.lines
         for s in other.samples:
             if len(self.samples) < MAX_SAMPLES:
                 self.samples.append(s)
@@ -263,9 +346,35 @@ def _chunks(items, size):
         yield buf
 
 
+def _uncaught(fn, e, acc, order, case=None, trace=None, prop=None):
+    """An exception escaped a property module. If it was raised inside the tree under test it is a
+    violation (the code crashed on an input of the scope); otherwise it is a harness bug, which
+    must not be silent either."""
+    root = os.path.join(os.path.realpath(REPO), 'phylib') + os.sep
+    tb = e.__traceback__
+    last = None
+    while tb is not None:        # the deepest frame that lies in the tree under test
+        if tb.tb_frame.f_code.co_filename.startswith(root):
+            last = tb
+        tb = tb.tb_next
+    fname = last.tb_frame.f_code.co_filename if last is not None else ''
+    text = ''.join(traceback.format_exception(type(e), e, e.__traceback__))[-1500:]
+    if fname.startswith(root):
+        prop = prop or (getattr(fn, '__module__', '') or '').split('.')[-1][:3].upper()
+        sig = '%s/uncaught/%s/%s:%s' % (prop, type(e).__name__, fname[len(root) - 7:],
+                                        last.tb_frame.f_code.co_name)
+        acc.violation(sig, make_record(prop, 'uncaught', sig, case=case, trace=trace,
+                                       expected='no exception from the code under test',
+                                       observed=text), order)
+    else:
+        sig = 'HARNESS/%s' % type(e).__name__
+        acc.violation(sig, make_record('?', 'harness', sig, case=case, trace=trace, observed=text), order)
+
+
 def _run_chunk(args):
     fn, chunk = args
     acc = Acc()
+    enable_line_monitoring()
     for order, case in chunk:
         if too_many_timeouts():
             acc.extra['cases_skipped_after_timeouts'] += 1
@@ -274,10 +383,9 @@ def _run_chunk(args):
             fn(case, acc, order)
         except PhylibImportError:
             raise
-        except Exception as e:  # a harness bug must not be silent
-            acc.violation('HARNESS/%s' % type(e).__name__, make_record(
-                '?', 'harness', 'HARNESS/%s' % type(e).__name__, case=case,
-                observed=traceback.format_exc()[-1500:]), order)
+        except Exception as e:
+            _uncaught(fn, e, acc, order, case=case)
+    acc.lines = drain_lines()
     return acc
 
 
@@ -297,6 +405,7 @@ class Ctx(object):
         self.t0 = time.time()
         self._pool = None
         scratch_root()   # created before forking so that workers share it and the parent removes it
+        enable_line_monitoring()
 
     @property
     def thorough(self):
@@ -447,15 +556,15 @@ def _expand_chunk(args):
     fn, chunk = args
     acc = Acc()
     succ = []
+    enable_line_monitoring()
     for key, hist in chunk:
         try:
             succ.extend(fn(key, hist, acc))
         except PhylibImportError:
             raise
         except Exception as e:
-            acc.violation('HARNESS/%s' % type(e).__name__, make_record(
-                '?', 'harness', 'HARNESS/%s' % type(e).__name__, trace=hist,
-                observed=traceback.format_exc()[-1500:]), len(hist))
+            _uncaught(fn, e, acc, len(hist), trace=hist)
+    acc.lines = drain_lines()
     return acc, succ
 
 
@@ -576,6 +685,8 @@ def write_evidence(ctx, n_violations, known_seen, unreproduced, extra_cov=None):
         'phylib_src': REPO,
         'jobs': ctx.jobs,
     }
+    acc.lines |= drain_lines()
+    cov['anchor_line_coverage'] = anchor_coverage(ctx.prop, acc.lines)
     cov.update(jsonable(ctx.notes))
     if extra_cov:
         cov.update(extra_cov)
